@@ -11,7 +11,7 @@
    [no_overread]: no File parameter's payload is followed by further buffer content (known finding
    graph:file-param-overread: otherwise the statement is false of the code, see the last theorem). *)
 From Coq Require Import String Ascii List ZArith.
-From PF Require Import Base.Bytes Graph.Schema Graph.SchemaProofs Graph.Instance Graph.InstanceProofs Graph.Values Graph.ValuesProofs Graph.SortedProofs Check.C12.
+From PF Require Import Base.Bytes Graph.Schema Graph.SchemaProofs Graph.Instance Graph.InstanceProofs Graph.Values Graph.ValuesProofs Graph.SortedProofs Graph.TypedProofs Check.C12.
 Open Scope N_scope.
 
 (* 1. same graph: ids, types, wiring INCLUDING the order of array inputs, parameter records (name,
@@ -228,6 +228,27 @@ Proof.
   - apply value_roundtrip; assumption.
 Qed.
 Print Assumptions typed_parameter_values_reload.
+
+(* ... the typed invariant: when the registered records of the type table hold canonical values and every update
+   hands a canonical value to the parameter it addresses, every current and default value of every parameter is
+   canonical after the whole history ([vk]: the value kind of each Value[T] type) — the test the binding applies to the
+   graphs it observes, as a theorem — and still is in the reloaded graph *)
+Theorem parameter_values_stay_canonical : forall (vk : nat -> option vkind) (T : table) (h : list op),
+  table_canon vk T -> hist_canon vk T empty h -> all_canon vk (run T h).
+Proof. exact run_canon. Qed.
+Print Assumptions parameter_values_stay_canonical.
+
+Theorem parameter_values_canonical_after_reload : forall (vk : nat -> option vkind) (T : table) (h : list op) (s' : inst),
+  table_ok T -> table_canon vk T -> hist_canon vk T empty h ->
+  decode_fixed T (encode T (run T h)) = Some s' -> all_canon vk s'.
+Proof. exact reload_canon. Qed.
+Print Assumptions parameter_values_canonical_after_reload.
+
+Example binding_table_values_canonical : table_canon the_vkind the_table.
+Proof.
+  intros k t H. do 21 (destruct k as [|k]; [injection H as <-; vm_compute; repeat split|]).
+  destruct k; discriminate.
+Qed.
 
 Example a_colour_with_small_alpha_reloads :
   let h := [OCreate 8; OUpdate "Node-0" (to_json (VColor 1 2 3 4))] in
